@@ -1,7 +1,99 @@
-import SpVerif.Model.Geom
+import SpVerif.Lemmas.Area
+/-!
+# C14 — length, area and boundary are the exact measures of each element
+
+Theorems about the measure model of `Geom` (`compute_area` doubled, `compute_line_length` as the list of squared segment
+lengths in summation order).  `sqrt` and the float additions are applied by the harness in the model's order; what is
+proved here is structural and arithmetic on exact integers.  Rings are closed (first vertex = last), see DESIGN §2.
+-/
 namespace SpVerif
 open Geom
+
 /-- rings with fewer than three vertices are skipped by the area kernel (`poly_length < 6`) -/
 theorem C14_degenerate_ring_zero (r : List Pt) (h : r.length < 3) : ringArea2 r = 0 := by
   simp [ringArea2, h]
+
+/-- **the coded area of a closed ring is the shoelace area** `½ Σ (x_i y_{i+1} - x_{i+1} y_i)` (doubled) -/
+theorem C14_area_shoelace (r : List Pt) (h : Closed r) : ringArea2 r = shoelace r :=
+  ringArea2_eq_shoelace r h
+
+/-- the area is unchanged by translating all coordinates -/
+theorem C14_area_translation (d : Pt) (r : List Pt) (h : Closed r) : ringArea2 (translate d r) = ringArea2 r := by
+  rw [ringArea2_eq_shoelace _ (closed_translate d r h), ringArea2_eq_shoelace r h, shoelace_translate d r (by have := h.1; omega), h.2]
+  ring
+
+/-- reversing a closed ring negates its area (this is what `oriented()` relies on) -/
+theorem C14_area_reversal (r : List Pt) (h : Closed r) : ringArea2 r.reverse = - ringArea2 r := by
+  rw [ringArea2_eq_shoelace _ (closed_reverse r h), ringArea2_eq_shoelace r h, shoelace_reverse]
+
+/-- polygon area = sum over its rings; for a ring-oriented polygon (shell ≥ 0, holes ≤ 0) that is the shell area minus the
+hole areas, and a multipolygon adds up its parts -/
+theorem C14_polygon_area (shell : List Pt) (holes : List (List Pt)) :
+    area2 (shell :: holes) = ringArea2 shell + (holes.map ringArea2).sum := by
+  simp [area2]
+
+theorem C14_multipolygon_area (parts : List (List (List Pt))) :
+    area2 parts.flatten = (parts.map area2).sum := by
+  induction parts with
+  | nil => rfl
+  | cons p ps ih =>
+    simp only [List.flatten_cons, List.map_cons, List.sum_cons, area2, List.map_append, List.sum_append] at ih ⊢
+    rw [ih]
+
+theorem C14_oriented_polygon_area (shell : List Pt) (holes : List (List Pt))
+    (hs : 0 ≤ ringArea2 shell) (hh : ∀ h ∈ holes, ringArea2 h ≤ 0) :
+    area2 (shell :: holes) = (ringArea2 shell).natAbs - ((holes.map (fun h => ((ringArea2 h).natAbs : Int))).sum) := by
+  rw [C14_polygon_area]
+  have e1 : ((ringArea2 shell).natAbs : Int) = ringArea2 shell := by omega
+  rw [e1]
+  have : (holes.map ringArea2).sum = - (holes.map (fun h => ((ringArea2 h).natAbs : Int))).sum := by
+    induction holes with
+    | nil => rfl
+    | cons h hs' ih =>
+      have h1 := hh h (by simp)
+      have := ih (fun x hx => hh x (by simp [hx]))
+      simp only [List.map_cons, List.sum_cons]
+      rw [this]; omega
+  omega
+
+/-- a segment touching a vertex with a non-finite coordinate counts as absent: a NaN vertex breaks the line -/
+theorem C14_nan_vertex_breaks_line (a b : Pt) (rest : List (Option Pt)) :
+    segSquares (some a :: none :: some b :: rest) = segSquares (some b :: rest) := by
+  simp [segSquares]
+
+/-- the length is unchanged by translating all coordinates (every squared segment length is) -/
+theorem C14_length_translation (d : Pt) (l : List (Option Pt)) :
+    segSquares (l.map (Option.map (fun p => (p.1 + d.1, p.2 + d.2)))) = segSquares l := by
+  match l with
+  | [] => rfl
+  | [x] => cases x <;> rfl
+  | some a :: some b :: rest =>
+    have ih := C14_length_translation d (some b :: rest)
+    simp only [List.map_cons, Option.map_some, segSquares] at ih ⊢
+    rw [ih]
+    congr 1; ring
+  | some a :: none :: rest =>
+    have ih := C14_length_translation d (none :: rest)
+    simp only [List.map_cons, Option.map_some, Option.map_none, segSquares] at ih ⊢
+    exact ih
+  | none :: b :: rest =>
+    have ih := C14_length_translation d (b :: rest)
+    simp only [List.map_cons, Option.map_none, segSquares] at ih ⊢
+    exact ih
+
+/-- the boundary of a polygon is the multiline of exactly its rings, so both lengths are the *same* fold over the same
+squared segment lengths in the same order (hence bit-identical floats); for a multipolygon the rings of all parts -/
+theorem C14_boundary_length (parts : List (List (List (Option Pt)))) :
+    lengthSquares parts.flatten = (parts.map lengthSquares).flatten := by
+  induction parts with
+  | nil => rfl
+  | cons p ps ih =>
+    simp only [List.flatten_cons, List.map_cons, lengthSquares, List.map_append, List.flatten_append] at ih ⊢
+    rw [ih]
+
+/-! non-vacuity: a closed clockwise square of area 16 and its reversal -/
+example : Closed [(1,1), (1,5), (5,5), (5,1), (1,1)] ∧ ringArea2 [(1,1), (1,5), (5,5), (5,1), (1,1)] = -32 ∧
+    ringArea2 [(1,1), (1,5), (5,5), (5,1), (1,1)].reverse = 32 := by
+  refine ⟨⟨by decide, by decide⟩, by decide, by decide⟩
+
 end SpVerif
